@@ -83,6 +83,48 @@ func vpC01Cell(ti int) {
 	vpReach("end")
 }
 
+// texts with characters the codecs treat specially (literal backslash sequences, quotes, markup,
+// line separators, texts that are JSON themselves), in every natural-language property of every type,
+// as a single value and inside a two-language map
+var vpC01Texts = []string{`C:\new\table`, `say "hi"`, `<p>a&amp;b</p>`, "line\nbreak", "sep\u2028arator", `{"a":1}`, `\\`, `\"`, "tab\there", `42`, "caf\u00e9 \U0001F600"}
+
+func vpH_C01_special_texts() {
+	ti := vpChoice(len(vpTypeNames))
+	fields := vpFieldsOf(ti)
+	f := vpChoice(len(fields))
+	if fields[f].Kind != "NLV" {
+		vpReach("end")
+		return
+	}
+	t := Content(vpC01Texts[vpChoice(len(vpC01Texts))])
+	var n NaturalLanguageValues
+	form := vpChoice(3)
+	switch form {
+	case 0:
+		n = NaturalLanguageValues{{Ref: NilLangRef, Value: t}}
+	case 1:
+		n = NaturalLanguageValues{{Ref: "en", Value: t}, {Ref: "fr", Value: Content("autre")}}
+	default:
+		n = NaturalLanguageValues{{Ref: "en", Value: Content("other")}, {Ref: "fr", Value: t}}
+	}
+	x := vpNew(ti)
+	vpSetField(x, 0, 0, 'i')
+	vpSetNLV(x, f, n)
+	cell := vpTypeNames[ti] + "." + fields[f].Name + "/form" + string([]byte{'0' + byte(form)})
+	b, err := vpMarshalItem(x)
+	vpAssert("texts/encode/"+cell, err == nil && len(b) > 0)
+	if len(b) == 0 {
+		return
+	}
+	y, err := UnmarshalJSON(b)
+	vpAssert("texts/decode/"+cell, err == nil && y != nil)
+	if y == nil {
+		return
+	}
+	vpDiffItems("texts/roundtrip/"+cell, x, y, nil)
+	vpReach("end")
+}
+
 func vpH_C01_Object()                { vpC01Cell(vpTypeIndex("Object")) }
 func vpH_C01_Actor()                 { vpC01Cell(vpTypeIndex("Actor")) }
 func vpH_C01_Activity()              { vpC01Cell(vpTypeIndex("Activity")) }
